@@ -10,6 +10,7 @@ import (
 	"sort"
 	"sync"
 
+	builder "github.com/acekingke/yaccgo/Builder"
 	lalr "github.com/acekingke/yaccgo/LALR"
 	parser "github.com/acekingke/yaccgo/Parser"
 	utils "github.com/acekingke/yaccgo/Utils"
@@ -349,4 +350,40 @@ func SortedKeys[V any](m map[int]V) []int {
 	}
 	sort.Ints(k)
 	return k
+}
+
+// GenResult of an in-process generator call.
+type GenResult struct {
+	Err    error
+	Panic  interface{}
+	Stdout string
+}
+
+func (r GenResult) Failed() bool { return r.Err != nil || r.Panic != nil }
+
+// Generate calls the same builder entry points as the CLI (yaccgo/command.go)
+// with the same global mode switches. variant: go, go-u, go-o, go-ou, ts.
+func Generate(text, variant, outfile string) GenResult {
+	mu.Lock()
+	defer mu.Unlock()
+	var res GenResult
+	oldP, oldO, oldH, oldD := utils.PackFlags, utils.ObjectMode, utils.HttpDebug, utils.DebugFlags
+	defer func() { utils.PackFlags, utils.ObjectMode, utils.HttpDebug, utils.DebugFlags = oldP, oldO, oldH, oldD }()
+	utils.PackFlags = !(variant == "go-u" || variant == "go-ou")
+	utils.ObjectMode = variant == "go-o" || variant == "go-ou"
+	utils.HttpDebug = false
+	utils.DebugFlags = false
+	res.Stdout = Capture(func() {
+		defer func() {
+			if e := recover(); e != nil {
+				res.Panic = e
+			}
+		}()
+		if variant == "ts" {
+			res.Err = builder.TsGenFromString(text, outfile)
+		} else {
+			res.Err = builder.TemplateGenFromString(text, outfile)
+		}
+	})
+	return res
 }
